@@ -432,10 +432,20 @@ def gen(rng, n, tier):
                'perm_seeds': [seeds[0], seeds[-1]]}
 
 
+def _tier():
+    """run.py does not hand the tier to corpus(): read it where run.py reads it"""
+    if '--tier' in sys.argv[:-1]:
+        return sys.argv[sys.argv.index('--tier') + 1]
+    for a in sys.argv:
+        if a.startswith('--tier='):
+            return a.split('=', 1)[1]
+    return os.environ.get('VERIF_TIER', 'quick')
+
+
 def corpus():
     """every bundled document: the ones that load under all seeds + permutations, the refused ones under two seeds"""
     import random
-    tier = os.environ.get('VERIF_TIER_C15') or ('thorough' if '--tier' in sys.argv and 'thorough' in sys.argv else 'quick')
+    tier = _tier()
     ns = n_seeds(tier)
     rng = random.Random('C15-corpus|%s' % os.environ.get('VERIF_SEED', '0'))
     out = []
@@ -613,3 +623,39 @@ def compare(case, obs, replies):
         if mm:
             return mm
     return None
+
+
+MANIFEST = {
+    'technique': 'Lean 4 theorems over the loader model of C01 and the graph model of C09 with every Python set '
+                 'iteration of the code made an adversarial order parameter + cross-process differential runs '
+                 '(PYTHONHASHSEED) + element permutations + a static AST scan for set iterations',
+    'text': ('Proved in Lean (lean/Cellml/Props/C15.lean; all documents, all fair adversaries, standard axioms only): '
+             'load_order_independent (after the fix no set is iterated while loading: variables(), equations, initial '
+             'values are independent of the adversary); queries_order_independent (get_derivatives, '
+             'get_derived_quantities, get_equations_for for every request / recursion mode / number representation '
+             'answer the same list, or are refused alike, for any two iteration orders at '
+             'find_variables_and_derivatives and nx.ancestors); sorted_queries_deterministic + sortBy_spec (stable sort '
+             'by pairwise distinct keys depends only on the set), order_added_distinct (keys come from a counter that '
+             'only grows: strictly increasing along variables() after any add/remove history), '
+             'lexTopo_insertion_independent (C09). The unfixed code is kept as transformConstantsSet / loadSet with '
+             'proved counterexamples (transform_constants_set_order_dependent, loadSet_order_dependent) and '
+             'loadSet_perm (same equation set). Two order dependences still in the code are reproduced and proved: '
+             'graph_nodes_order_dependent, derived_depends_on_equation_order. Element permutations: '
+             'variables_follow_document and equations_follow_document state exactly which orders follow the document; '
+             'element_perm_connections (same roots, variables, maths and constants lists; only the block of conversion '
+             'equations is in work-list order), element_perm_ends (identical flat model), element_perm_equations '
+             '(equations inside <math>: same variables, same conversion and constant blocks, maths the same set), '
+             'element_perm_components (variables() permuted accordingly). Tie: every bundled document and N generated '
+             'documents are loaded in separate processes under 8/64 hash seeds and in 9 permuted spellings; the dumps '
+             '(variables, equations, role queries sorted and unsorted, graph nodes and edges, get_equations_for of '
+             'every variable) must be identical across processes, equal up to the documented orders across '
+             'permutations, and equal to the dump of the compiled Lean model for the generated documents (all '
+             'spellings, five different adversaries).'),
+    'note': ('Partial: the theorems cover the iteration orders AT THE MODELLED SITES (setscan.py lists the sites from '
+             'the source on every run; a new one is reported as drift and multiplies the seeds by 4); that the block of '
+             'conversion equations is the same SET under permuted connections, group order and component order '
+             '(beyond variables()) are tested, not proved; SymPy (which references survive number substitution, str '
+             'of an equation) is observed, not modelled; Declared / OdeOnce / distinct str keys are hypotheses of '
+             'queries_order_independent (checked on examples, enforced by the loader). Trusted: Lean kernel; propext, '
+             'Classical.choice, Quot.sound; the harness.'),
+}
